@@ -49,11 +49,18 @@ long        memio_failed_pos  = -1;
 int         memio_phase       = 0;  /* set by the harness before each API call */
 int         memio_failed_phase = -1; /* phase in which the first stdio call failed */
 int         memio_failed_code  = 0;  /* 1 fopen 2 fclose 3 fflush 4 fseek 5 fread 6 fwrite */
+#ifdef H4V_NATIVE
+int         memio_callphase[512]; /* phase of each stdio call (native planning runs only) */
+#endif
 
 static int
 memio_fault_k(const char *kind, long pos, int code)
 {
     long k = memio_ncalls++;
+#ifdef H4V_NATIVE
+    if (k < 512)
+        memio_callphase[k] = memio_phase;
+#endif
     if (memio_fail_at >= 0 && (k == memio_fail_at || (memio_sticky && k > memio_fail_at))) {
         if (!memio_any_failed) {
             memio_failed_kind  = kind;
